@@ -4216,13 +4216,9 @@ def with_cache(array, cache, highlevel=True, behavior=None):
 
     def getfunction(layout):
         if isinstance(layout, ak.layout.VirtualArray):
-            if cache is None:
-                newcache = layout.cache
-            else:
-                newcache = cache
             return lambda: ak.layout.VirtualArray(
                 layout.generator,
-                newcache,
+                cache,
                 layout.cache_key,
                 layout.identities,
                 layout.parameters,
